@@ -29,13 +29,6 @@ theorem splice_after (f new : Bytes) (o old x : Nat) (ho : o + old ≤ f.length)
   simp only [List.length_append, h1, List.getElem?_drop]
   congr 1; omega
 
-/-- an offset together with the `n` bytes it addresses avoids the replaced region `[o, o+old)`:
-it ends before `o`, or it starts after `o` and not before the end of the region.  (`e = o` is
-excluded: the code compares `offset < e`, so an entry equal to the region start is not patched.) -/
-def Clear (o old e n : Nat) : Prop := e + n ≤ o ∨ (o < e ∧ o + old ≤ e)
-
-instance (o old e n : Nat) : Decidable (Clear o old e n) := by unfold Clear; infer_instance
-
 theorem readAt_eq_of_getElem? (f g : Bytes) (a b n : Nat) (h : ∀ i, i < n → g[b + i]? = f[a + i]?) :
     readAt g b n = readAt f a n := by
   apply List.ext_getElem?
@@ -535,12 +528,6 @@ theorem length_encodeEntries (w : Nat) (es : List Nat) : (encodeEntries w es).le
     simp only [encodeEntries, List.map_cons, List.flatten_cons, List.length_append, length_toBE, List.length_cons] at ih ⊢
     rw [ih]; rw [Nat.mul_succ]; omega
 
-/-- the bytes `__update_offset_table` reads: count(4) and entries -/
-def tblData (g : Bytes) (off len : Nat) : Bytes := readAt g (off + 12) (len - 12)
-def tblCnt (g : Bytes) (off len : Nat) : Nat := ofBE ((tblData g off len).take 4)
-/-- the entries of the table at `off` -/
-def tblEntries (g : Bytes) (w off len : Nat) : List Nat := entriesOf w (tblCnt g off len) ((tblData g off len).drop 4)
-
 /-- what a successful `__update_offset_table` did: the count was readable, fits the atom, every
 patched entry fits its field, and the entries were overwritten by the patched ones -/
 theorem updateOffsetTable_ok (g g' : Bytes) (w off len : Nat) (delta : Int) (o : Nat) (hlen : 12 ≤ len)
@@ -583,11 +570,6 @@ theorem updateOffsetTable_agree (g g' : Bytes) (w off len : Nat) (delta : Int) (
       (tblData g off len).length - 4 := by
     rw [length_encodeEntries, List.length_map, List.length_map, tblEntries, length_entriesOf, hb, Nat.mul_comm]
   refine (writeAt_agree g _ (off + 16) (by rw [hl]; omega)).mono (by omega) (by rw [hl]; omega)
-
-/-- the bytes `__update_tfhd` reads: flags(3) track_ID(4) base_data_offset(8) … -/
-def tfhdData (g : Bytes) (off len : Nat) : Bytes := readAt g (off + 9) (len - 9)
-def tfhdHasBase (g : Bytes) (off len : Nat) : Prop := ofBE ((tfhdData g off len).take 3) % 2 = 1
-def tfhdBaseAt (g : Bytes) (off len : Nat) : Nat := ofBE (((tfhdData g off len).drop 7).take 8)
 
 /-- what a successful `__update_tfhd` did -/
 theorem updateTfhd_ok (g g' : Bytes) (off len : Nat) (delta : Int) (o : Nat) (hlen : 9 ≤ len)
@@ -683,22 +665,6 @@ theorem runSteps_agree (steps : List (Bytes → Except PyErr Bytes)) (rs : List 
       refine ⟨hl.trans ha.1, fun x n hd => ?_⟩
       rw [hw x n (fun r' hr' => hd r' (List.mem_cons_of_mem _ hr'))]
       exact ha.readAt x n (hd r List.mem_cons_self)
-
-def parentRange (p : PAtom) : Nat × Nat := (p.offset, p.offset + 16)
-
-/-- the extent of a visited table atom where it lies after the save, from the first byte that
-may be rewritten (`+ 16`) to its end -/
-def tableRange (delta : Int) (o : Nat) (t : Nat × PAtom) : Nat × Nat :=
-  (shifted t.2 delta o + 16, shifted t.2 delta o + t.2.length)
-
-/-- every byte range the bookkeeping of a save may write to -/
-def ranges (parents atoms : List PAtom) (delta : Int) (o : Nat) : List (Nat × Nat) :=
-  parents.map parentRange ++ (visited atoms).map (tableRange delta o)
-
-/-- the visited table atoms are long enough for the fixed offsets the code reads at
-(`stco`/`co64`: count at +12; `tfhd`: flags at +9, base offset at +16..+24) -/
-def TablesSized (atoms : List PAtom) : Prop :=
-  ∀ t ∈ visited atoms, if t.1 = 0 then 24 ≤ t.2.length else 12 ≤ t.2.length
 
 theorem parentSteps_in (parents : List PAtom) (delta : Int) (hd : delta ≠ 0) :
     AllIn (parentSteps parents delta) (parents.map parentRange) := by
@@ -799,23 +765,6 @@ theorem runSteps_split (a b : List (Bytes → Except PyErr Bytes)) (g g' : Bytes
     cases e with
     | none => exact ⟨gm, rfl, h⟩
     | some e => simp at h
-
-/-- where a visited table atom lies after the save -/
-def extentOf (delta : Int) (o : Nat) (t : Nat × PAtom) : Nat × Nat :=
-  (shifted t.2 delta o, shifted t.2 delta o + t.2.length)
-
-def Disjoint (a b : Nat × Nat) : Prop := a.2 ≤ b.1 ∨ b.2 ≤ a.1
-
-instance (a b : Nat × Nat) : Decidable (Disjoint a b) := by unfold Disjoint; infer_instance
-
-/-- where they lie after the save, the visited table atoms are pairwise disjoint and none of them
-overlaps the 16 bytes at the start of a path atom (where `__update_parents` writes) -/
-def ExtentsDisjoint (parents atoms : List PAtom) (delta : Int) (o : Nat) : Prop :=
-  ((visited atoms).map (extentOf delta o)).Pairwise Disjoint ∧
-    ∀ p ∈ parents, ∀ t ∈ visited atoms, Disjoint (parentRange p) (extentOf delta o t)
-
-instance (parents atoms : List PAtom) (delta : Int) (o : Nat) : Decidable (ExtentsDisjoint parents atoms delta o) := by
-  unfold ExtentsDisjoint; infer_instance
 
 theorem readAt_writeAt_window (g buf : Bytes) (p x n : Nat) (hx : x ≤ p) (hn : p + buf.length ≤ x + n)
     (hb : x + n ≤ g.length) :
@@ -1151,30 +1100,6 @@ theorem visited_eq_allTables (atoms : List PAtom)
     cases hf : atoms.find? (·.name = nMoof) with
     | none => simp
     | some mf => simp
-
-/-- the side conditions under which the bookkeeping of a save is analysed: the visited table
-atoms are long enough for the fixed positions the code reads, lie inside the file and avoid the
-replaced region, and (where they lie after the save) they and the size fields of the path atoms
-are pairwise disjoint.  All four hold for a file whose atoms tile it (strict walker) when the
-region is the `ilst`/`free` pair or the insertion point; all four are decidable. -/
-def SaveSafe (f : Bytes) (atoms parents : List PAtom) (o old : Nat) (delta : Int) : Prop :=
-  TablesSized atoms ∧ ExtentsDisjoint parents atoms delta o ∧
-    (∀ t ∈ visited atoms, Clear o old t.2.offset t.2.length) ∧
-    (∀ t ∈ visited atoms, t.2.offset + t.2.length ≤ f.length)
-
-instance (atoms : List PAtom) : Decidable (TablesSized atoms) := by unfold TablesSized; infer_instance
-
-instance (f : Bytes) (atoms parents : List PAtom) (o old : Nat) (delta : Int) :
-    Decidable (SaveSafe f atoms parents o old delta) := by unfold SaveSafe; infer_instance
-
-/-- the `n` bytes at `e` are media in the sense needed: they avoid the replaced region and, where
-they lie after the save, every field the bookkeeping may rewrite -/
-def MediaClear (parents atoms : List PAtom) (o old : Nat) (delta : Int) (e n : Nat) : Prop :=
-  Clear o old e n ∧ ∀ r ∈ ranges parents atoms delta o,
-    (patchEntry o delta e).toNat + n ≤ r.1 ∨ r.2 ≤ (patchEntry o delta e).toNat
-
-instance (parents atoms : List PAtom) (o old : Nat) (delta : Int) (e n : Nat) :
-    Decidable (MediaClear parents atoms o old delta e n) := by unfold MediaClear; infer_instance
 
 /-- `updateParents` (the form used in `parent_sizes`) is the `__update_parents` part of `saveAt` -/
 theorem parentSteps_updateParents (ps : List PAtom) (delta : Int) (hd : delta ≠ 0) (g g' : Bytes)
